@@ -284,7 +284,8 @@ pub fn run(a: &Args) {
         concs.push(c);
     }
     let mut k = 0usize;
-    let alpha = ['o', 'x', 'm', 'w'];
+    // (C10 only needs good pairs and shapes of another type; refused rows belong to C08)
+    let alpha: Vec<char> = a.get("alpha", "oxmw").chars().collect();
     for ti in 0..ntypes {
         let t = ALL_TYPES[(ti + seed as usize) % 13];
         let tx = other_type(t, ti + 3);
@@ -293,7 +294,8 @@ pub fn run(a: &Args) {
         let mut hists = crate::cmd_writer::all_hists(&alpha, n);
         for _ in 0..nrandom {
             let len = 5 + r.below(30);
-            hists.push((0..len).map(|_| *r.pick(&['o', 'o', 'o', 'x', 'm', 'w'])).collect());
+            let pool: Vec<char> = ['o', 'o', 'o', 'x', 'm', 'w'].iter().copied().filter(|ch| alpha.contains(ch)).collect();
+            hists.push((0..len).map(|_| *r.pick(&pool)).collect());
         }
         for h in hists {
             let i = k % chunks;
